@@ -3,8 +3,11 @@
 from __future__ import annotations
 
 import io
+import os
 import re
+import tempfile
 from collections import Counter
+from pathlib import Path
 
 from hypothesis import strategies as st
 
@@ -17,6 +20,7 @@ import rdflib
 from rdflib import Literal, URIRef
 from rdflib.namespace import XSD
 
+from nutree import StopTraversal
 from nutree.rdf import NUTREE_NS
 
 ID = "C17"
@@ -28,7 +32,8 @@ RULE = (
     "{DOT, Mermaid, RDF} x unique_nodes on/off x add_root/add_self on/off is exported, parsed back into (graph nodes "
     "with labels, multiset of labelled edges) and compared with the node keys and parent->child edges recomputed "
     "from an independent structural walk (Mermaid: up to renaming of the opaque node numbers; RDF: exact triple "
-    "set). Non-trivial: exported branch has a clone group and depth >= 2; distinct = distinct (spec, typed, start). "
+    "set). DOT is produced by to_dot(), by to_dot() with node/edge mappers that only add a colour/shape, and by "
+    "to_dotfile() to a file path and to a stream. Non-trivial: exported branch has a clone group and depth >= 2; distinct = distinct (spec, typed, start). "
     "Part export-mutate-export exports ONE tree (tree and one start node, all combinations) before a generated "
     "mutation history (move, remove, add, clones, re-keying, sort), after a generated subset of its steps and at its "
     "end (non-trivial there: >= 2 rounds of exports, one of a branch as above)."
@@ -161,11 +166,25 @@ def run(case, rec):
     tree, nodes = build(case["spec"], typed=typed, name="T")
     start_i = case["start"]
     start = None if start_i < 0 or not nodes else nodes[start_i % len(nodes)]
-    check_exports(tree, start, rec, typed)
+    check_exports(tree, start, rec, typed, variant=case.get("dot", "to_dot"), prior_abort=bool(case.get("prior_abort")))
 
 
-def check_exports(tree, start, rec, typed, nt=True):
+def check_exports(tree, start, rec, typed, nt=True, variant="to_dot", prior_abort=False):
     w = walk(tree)
+    rec.cls(f"dot-variant={variant}")
+    if prior_abort and w.pre:
+        # an earlier RDF export whose node_mapper ended it early; nothing is asserted about that call itself
+        inner = next((n for n in w.pre if w.kids[id(n)]), w.pre[0])
+        for first_only in (True, False):
+            try:
+                def stopper(graph, graph_node, tree_node, first_only=first_only):
+                    if first_only or tree_node is not inner:
+                        raise StopTraversal()
+
+                inner.to_rdf_graph(node_mapper=stopper)  # ends at the start node / at its first descendant
+            except Exception:  # noqa: BLE001
+                pass
+        rec.cls("after-an-RDF-export-ended-by-its-mapper")
     tname = tree.name
     ev = 0
 
@@ -211,10 +230,33 @@ def check_exports(tree, start, rec, typed, nt=True):
 
             # ---------------- DOT ----------------
             ev += 1
-            if start is None:
-                lines = list(tree.to_dot(add_root=with_root, unique_nodes=unique))
+            dv = variant
+            if dv == "mappers":
+                # mappers that only add a colour / a shape: ids, labels and the kind labels of the edges stay
+                mk = {"node_mapper": lambda node, data: data.update(shape="box"), "edge_mapper": lambda node, data: data.update(color="red")}
             else:
-                lines = list(start.to_dot(add_self=with_root, unique_nodes=unique))
+                mk = {}
+            if start is None and dv in ("dotfile-path", "dotfile-stream"):
+                if dv == "dotfile-path":
+                    fd, path = tempfile.mkstemp(prefix="verif_c17_", suffix=".gv")
+                    os.close(fd)
+                    try:
+                        tree.to_dotfile(path if unique else Path(path), add_root=with_root, unique_nodes=unique)
+                        with open(path) as fp:
+                            text = fp.read()
+                    finally:
+                        os.unlink(path)
+                else:
+                    buf = io.StringIO()
+                    tree.to_dotfile(buf, add_root=with_root, unique_nodes=unique)
+                    text = buf.getvalue()
+                lines = text.split("\n")
+                while lines and lines[-1] == "":
+                    lines.pop()
+            elif start is None:
+                lines = list(tree.to_dot(add_root=with_root, unique_nodes=unique, **mk))
+            else:
+                lines = list(start.to_dot(add_self=with_root, unique_nodes=unique, **mk))
             dn, de, problems = parse_dot(lines)
             if problems:
                 rec.fail("dot:unparsable", dict(desc, problems=problems[:3]))
@@ -345,7 +387,9 @@ def hyp_cases(draw, tier):
     spec = draw(gen.forest_specs(max_nodes=14, max_depth=5, max_width=4, min_nodes=0, opts=opts, alphabet=["a", "b", "c", "d", "a1", "b1", "ä"]))
     gen.fix_sibling_ids(spec)
     n = gen.spec_nodes(spec)
-    return {"spec": spec, "typed": typed, "start": draw(st.integers(-1, max(0, n - 1)))}
+    return {"spec": spec, "typed": typed, "start": draw(st.integers(-1, max(0, n - 1))),
+            "dot": draw(st.sampled_from(["to_dot", "to_dot", "mappers", "dotfile-path", "dotfile-stream"])),
+            "prior_abort": draw(st.sampled_from([0, 0, 0, 1]))}
 
 
 PARTS = [
